@@ -276,7 +276,9 @@ class TimeStamp(TdmsType):
             remainder = np.timedelta64(1, 's') + remainder
             seconds = seconds - 1
         microseconds = int(remainder / np.timedelta64(1, 'us'))
-        second_fractions = int(microseconds * self._fractions_per_microsecond)
+        # Use exact integer arithmetic and round up by more than the error of the double precision
+        # conversion done when reading, so that truncating the fractions to microseconds gives back the same value
+        second_fractions = (microseconds * 2 ** 64) // 10 ** 6 + 2 ** 14
         self.bytes = _struct_pack('<Qq', second_fractions, seconds)
 
     @classmethod
